@@ -92,11 +92,11 @@ def floors(tier):
     return {"monitors": {"split.partition": 3500 if q else 15000,
                          "split.piece_ends_marked": 3500 if q else 15000,
                          "split.no_marker_empty": 10,
-                         "split.source_unchanged": 4000 if q else 16000,
+                         "split.source_unchanged": 3500 if q else 15000,
                          "seg.marker_vs_threshold": 8000 if q else 40000,
                          "extract.inclusive_bounds": 10000},
             "classes": {"no_marker": 10, "first_marked": 1000, "last_marked": 1000, "adjacent_markers": 1000,
-                        "all_marked": 10, "single_obs": 2, "trailing_empty_piece": 1000, "via_seg": 2000,
+                        "all_marked": 10, "single_obs": 2, "trailing_empty_piece": 1000, "via_seg": 1500,
                         "eq_threshold": 200, "nan_value": 200, "all_nan_and": 6, "all_nan_or": 6,
                         "just_above": 200, "just_below": 200, "feat1": 10, "feat2": 50, "feat3": 200,
                         "mode_and": 150, "mode_or": 150, "and_or_differ": 100},
